@@ -1562,7 +1562,7 @@ def has_perm(user, perm, x):
             if reverse:
                 reverse_rules = reverse.entity._access_rules_.get(perm)
                 if not reverse_rules: return False
-                for reverse_rule in access_rules:
+                for reverse_rule in reverse_rules:
                     if user_groups.issuperset(reverse_rule.groups) \
                             and reverse.entity not in reverse_rule.entities_to_exclude \
                             and reverse not in reverse_rule.attrs_to_exclude:
